@@ -668,6 +668,8 @@ class RunLength2dArray(IndexableMixin, np.lib.mixins.NDArrayOperatorsMixin):
         else:
             values = self._values.ravel()
         assert len(values) == len(positions), (values, positions)
+        if values.dtype == bool:
+            values = values.astype(int)  # column sums of booleans are counts
         if np.issubdtype(values.dtype, np.integer):
             if np.issubdtype(values.dtype, np.signedinteger):
                 values = values.astype(int)
